@@ -118,6 +118,12 @@ pub fn scripts() -> Vec<Script> {
             }
         }
     }
+    // long runs, explored without preemption (bound 0): 40 PDUs in ONE record followed by silence; 1500 records queued
+    // one behind the other, with and without a final ultimatum
+    v.push(Script { packing: Packing::ThreeInOne, end: End::None, end_after: 40, preloaded: false, nla: false, end_in_last_record: false, after_end: false });
+    v.push(Script { packing: Packing::ThreeInOne, end: End::DisconnectUltimatum, end_after: 300, preloaded: false, nla: false, end_in_last_record: false, after_end: false });
+    v.push(Script { packing: Packing::OnePerRecord, end: End::DisconnectUltimatum, end_after: 1500, preloaded: false, nla: false, end_in_last_record: false, after_end: false });
+    v.push(Script { packing: Packing::TwoThenOne, end: End::None, end_after: 700, preloaded: false, nla: false, end_in_last_record: false, after_end: false });
     // something still follows the session-ending PDU in its TLS record
     for packing in [Packing::OnePerRecord, Packing::TwoThenOne] {
         for end in [End::DisconnectUltimatum, End::UndecodableRdpKind, End::UndecodableIoKind, End::UndecodableEmptyFrame] {
@@ -998,6 +1004,17 @@ pub fn is_core(s: &Script) -> bool {
     (s.end == End::None || s.end_after == 2) && !(s.after_end && s.end_in_last_record) && !(matches!(s.packing, Packing::BigSecondPdu | Packing::ReactivationPacked) && !matches!(s.end, End::None | End::DisconnectUltimatum | End::AbruptClose))
 }
 
+/// the quick tier leaves to the thorough tier: the three rarer end kinds (two of the three undecodable-frame kinds, data on
+/// the user channel) under every packing but the plain one-PDU-per-record, and the two most expensive packing x end
+/// combinations (every end kind stays in quick under the plain packing, every packing under the other end kinds)
+pub fn is_quick(s: &Script) -> bool {
+    let rare_end = matches!(s.end, End::UndecodableEmptyFrame | End::UndecodableIoKind | End::DataOnTheUserChannel);
+    is_core(s)
+        && !(rare_end && s.packing != Packing::OnePerRecord)
+        && !(s.packing == Packing::OnePerRecordWithPauses && s.end == End::UndecodableRdpKind)
+        && !(s.packing == Packing::ReactivationPacked && s.end == End::AbruptClose)
+}
+
 /// per-run directory (the parent names it in VERIF_C20_STATS, its workers inherit the variable): two runs of this
 /// check at the same time do not share statistics
 pub fn stats_dir() -> std::path::PathBuf {
@@ -1051,9 +1068,13 @@ impl Prop for C20 {
         let all = scripts();
         self.cases.clear();
         for (i, s) in all.iter().enumerate() {
+            if s.end_after > 3 {
+                self.cases.push((i, 0));
+                continue;
+            }
             match tier {
                 Tier::Quick => {
-                    if is_core(s) {
+                    if is_quick(s) {
                         self.cases.push((i, 1));
                     }
                 }
@@ -1061,6 +1082,32 @@ impl Prop for C20 {
                     // bound 2 on the core scripts, bound 1 on all the others
                     self.cases.push((i, if is_core(s) { 2 } else { 1 }));
                 }
+            }
+        }
+        // the workers take the cases round-robin: order them by their (measured, per packing) cost, heaviest first, every
+        // second block of 16 reversed, so that every worker gets a similar share
+        let weight = |c: &(usize, u32)| -> u32 {
+            let s = &all[c.0];
+            if c.1 == 0 {
+                return 10;
+            }
+            let w = match s.packing {
+                Packing::OnePerRecordWithPauses => 180,
+                Packing::ReactivationPacked => 115,
+                Packing::RecordAcrossTwoSegments => 75,
+                Packing::EmptyPdusInside => 73,
+                Packing::PduAcrossTwoRecords => 72,
+                Packing::BigSecondPdu => 68,
+                Packing::OnePerRecord => 57,
+                Packing::TwoThenOne => 51,
+                _ => 48,
+            };
+            w * if c.1 >= 2 { 12 } else { 1 }
+        };
+        self.cases.sort_by_key(|c| std::cmp::Reverse(weight(c)));
+        for (b, block) in self.cases.chunks_mut(16).enumerate() {
+            if b % 2 == 1 {
+                block.reverse();
             }
         }
         // last case: the environment assumption of the model, checked against the code (see `socket_assumption`)
@@ -1105,12 +1152,14 @@ impl Prop for C20 {
             return o;
         }
         let script = scripts()[si];
+        let t0 = std::time::Instant::now();
         let st = explore(script, bound, None);
+        let wall_ms = t0.elapsed().as_millis() as u64;
         let _ = std::fs::create_dir_all(stats_dir());
         let viol_json: Vec<Value> = st.violations.iter().map(|(k, v)| json!({"sig": k, "choices": v.0, "detail": v.1, "schedules": v.2})).collect();
         let _ = std::fs::write(
             stats_dir().join(format!("{}.json", idx)),
-            json!({"idx": idx, "script_index": si, "bound": bound, "script": script, "schedules": st.schedules, "points": st.points, "states": st.states, "transitions": st.transitions, "max_preemptions": st.max_preemptions, "violations": viol_json, "error": st.error}).to_string(),
+            json!({"idx": idx, "script_index": si, "bound": bound, "script": script, "schedules": st.schedules, "points": st.points, "states": st.states, "transitions": st.transitions, "max_preemptions": st.max_preemptions, "violations": viol_json, "error": st.error, "wall_ms": wall_ms}).to_string(),
         );
         if let Some(e) = st.error {
             return Outcome::fail("machinery", "machinery", e);
